@@ -602,3 +602,86 @@ class PermOracle:
             except Exception:  # noqa: BLE001
                 out.append("C08:raises-on-single-trace:%s" % sig)
         return out
+
+
+# ------------------------------------------------------------------------------------ C12
+def hand_trapz(y, x, axis):
+    y = np.moveaxis(np.asarray(y), axis, 0)
+    x = np.asarray(x, dtype=float)
+    acc = np.zeros(y.shape[1:], dtype=y.dtype)
+    for i in range(len(x) - 1):
+        acc = acc + (x[i + 1] - x[i]) * (y[i] + y[i + 1]) / 2.0
+    return acc
+
+
+class IntegralOracle:
+    """C12: trapezoid values, region order, linearity, cumulative/definite relation, gain invariance"""
+
+    def pre(self, op, st):
+        if op["op"] != "proc" or op["f"] not in ("integrate", "cumulative_integrate", "calculate_enhancement"):
+            return None
+        return st.objs[op["obj"]].copy() if op["obj"] in st.objs else None
+
+    def post(self, op, st, line, pre):
+        if pre is None or line["outcome"] != "ok":
+            return []
+        f, kw, sig = op["f"], op["kw"], op_sig(op)
+        res = st.objs[op["out"]]
+        close = lambda a, b: np.asarray(a).shape == np.asarray(b).shape and np.allclose(a, b, rtol=1e-9, atol=1e-12)
+        out = []
+        if f == "integrate":
+            dim = kw["dim"]
+            k = list(pre.dims).index(dim)
+            regs = kw.get("regions")
+            if regs is None:
+                want = hand_trapz(pre.values, pre.coords[dim], k)
+                if list(res.dims) != [d for d in pre.dims if d != dim] or not close(res.values, want):
+                    out.append("C12:integrate-value:" + sig)
+            else:
+                from implstore import to_float
+                if list(res.dims) != [d for d in pre.dims if d != dim] + ["integrals"] or res.shape[-1] != len(regs):
+                    return ["C12:region-axis:" + sig]
+                for j, (lo, hi) in enumerate(regs):
+                    blk = pre[dim, (to_float(lo), to_float(hi))]
+                    want = hand_trapz(blk.values, blk.coords[dim], k)
+                    if not close(np.asarray(res.values)[..., j], want):
+                        out.append("C12:region-value:" + sig)
+                        break
+            # linearity
+            y = pre.copy(); y.values = pre.values ** 2 + 1
+            a, b = 2.5, -0.75
+            comb = pre.copy(); comb.values = a * pre.values + b * y.values
+            try:
+                fy = st._proc(f, y, kw); fc = st._proc(f, comb, kw)
+                if not close(fc.values, a * np.asarray(res.values) + b * np.asarray(fy.values)):
+                    out.append("C12:not-linear:" + sig)
+            except Exception:
+                out.append("C12:raises-on-combination:" + sig)
+            # cumulative / definite relation (whole axis only)
+            if regs is None and len(pre.coords[dim]) >= 2:
+                cum = dnp.cumulative_integrate(pre, dim)
+                last = np.take(np.asarray(cum.values), -1, axis=k)
+                if not close(last, res.values):
+                    out.append("C12:cumulative-last:" + sig)
+        elif f == "cumulative_integrate":
+            dim = kw["dim"]; k = list(pre.dims).index(dim)
+            x = np.asarray(pre.coords[dim], dtype=float)
+            y = np.moveaxis(np.asarray(pre.values), k, 0)
+            want = np.zeros_like(y, dtype=np.result_type(y.dtype, float))
+            for i in range(1, len(x)):
+                want[i] = want[i - 1] + (x[i] - x[i - 1]) * (y[i] + y[i - 1]) / 2.0
+            if not close(np.moveaxis(np.asarray(res.values), k, 0), want):
+                out.append("C12:cumulative-value:" + sig)
+        else:
+            idx = kw["idx"]
+            full = dnp.calculate_enhancement(pre, off_spectrum_index=idx, return_complex_values=True)
+            ref = np.take(np.asarray(full.values), idx, axis=0)
+            if not np.allclose(ref, 1.0, rtol=0, atol=1e-12):
+                out.append("C12:reference-not-one:" + sig)
+            for c in (3.0, -0.5, 2.0 - 1.5j):
+                sc = pre.copy(); sc.values = pre.values * c
+                r2 = dnp.calculate_enhancement(sc, off_spectrum_index=idx, return_complex_values=True)
+                if not close(r2.values, full.values):
+                    out.append("C12:gain-dependent:" + sig)
+                    break
+        return out
